@@ -105,7 +105,7 @@ def perform(o, family, form=0, quiet=False, reuse=False):
         elif k == "ct":
             N.construct(family, o["n"], parent=arg(o["v"]), children=as_iterable([arg(x) for x in o["xs"]], form if form % 6 < 2 else 0) or None)
     except BaseException as e:  # noqa: the outcome is data
-        if isinstance(e, (KeyboardInterrupt, SystemExit)):
+        if isinstance(e, (KeyboardInterrupt, SystemExit, core.Hang)):
             raise
         exc = N.exc_token(e)
         src = getattr(e, "src", 0) if exc == "HookFault" else 0
